@@ -34,10 +34,23 @@ def load_known():
         return json.load(f).get("findings", [])
 
 
+_SNIPPET_CACHE: dict = {}
+
+
 def run_snippet(code: str, path: str, timeout=120):
     os.makedirs(os.path.dirname(path), exist_ok=True)
     with open(path, "w") as f:
         f.write(code)
+    # model-free replays are the same script for every obligation of a function: run it once per worker process
+    body = "\n".join(l for l in code.splitlines() if not l.startswith("#"))
+    if body in _SNIPPET_CACHE:
+        return _SNIPPET_CACHE[body]
+    res = _run_snippet_uncached(path, timeout)
+    _SNIPPET_CACHE[body] = res
+    return res
+
+
+def _run_snippet_uncached(path: str, timeout=120):
     env = dict(os.environ)
     env["PYTHONPATH"] = S.REPO_SRC + os.pathsep + env.get("PYTHONPATH", "")
     env.setdefault("PYTHONHASHSEED", "0")
